@@ -192,7 +192,9 @@ fn nan_scoring_case(seed: u64, idx: u64) -> Out {
     let inputs = rng.range(1, 4);
     let cfg = NetCfg::plain(Sh::Flat(inputs), vec![LCfg::Dense { n: rng.range(1, 4), act: Act::Tanh, bias: true, dropout: None }, LCfg::Dense { n: width, act: *rng.pick(&[Act::Linear, Act::Tanh, Act::Sigmoid]), bias: true, dropout: None }]);
     let params = gen_params(&cfg, &mut rng, -1.0, 1.0).unwrap();
-    let mode = idx % 4; // 0: NaN targets, 1: NaN inputs (NaN predictions), 2: NaN tolerance, 3: negative tolerance
+    // 0: NaN targets, 1: NaN inputs (NaN predictions), 2: NaN tolerance, 3: negative tolerance,
+    // 4: a tolerance above one (up to f32::MAX), 5: an infinite tolerance
+    let mode = idx % 6;
     let mut out = Out::new(format!("nan scoring mode {} n{} {}", mode, n, cfg.describe()));
     let mut net = match build(&cfg, Some(&params)) {
         Ok(n) => n,
@@ -202,7 +204,17 @@ fn nan_scoring_case(seed: u64, idx: u64) -> Out {
         }
     };
     net.set_objective(lib_obj(Obj::MSE), None);
-    let tol = if mode == 2 { f32::NAN } else if mode == 3 { *rng.pick(&[-0.03f32, -0.5, -1e-6, f32::NEG_INFINITY]) } else { *rng.pick(&[0.05f32, 0.1, 0.5]) };
+    let tol = if mode == 2 {
+        f32::NAN
+    } else if mode == 3 {
+        *rng.pick(&[-0.03f32, -0.5, -1e-6, f32::NEG_INFINITY])
+    } else if mode == 4 {
+        *rng.pick(&[1.5f32, 2.0, 5.0, 40.0, 1e3, 1e30, f32::MAX])
+    } else if mode == 5 {
+        f32::INFINITY
+    } else {
+        *rng.pick(&[0.05f32, 0.1, 0.5])
+    };
     let xs: Vec<Vec<f32>> = (0..n).map(|i| (0..inputs).map(|_| if mode == 1 && i % 3 == 1 { f32::NAN } else { rng.f32_in(-1.0, 1.0) }).collect()).collect();
     let x_t: Vec<Tensor> = xs.iter().map(|x| tensor_of(cfg.input, x)).collect();
     let preds: Vec<Vec<f32>> = match guard(|| x_t.iter().map(|x| flat(&net.predict(x))).collect::<Vec<_>>()) {
@@ -217,7 +229,30 @@ fn nan_scoring_case(seed: u64, idx: u64) -> Out {
     let ts: Vec<Vec<f32>> = preds
         .iter()
         .map(|p| {
-            let t: Vec<f32> = p.iter().map(|v| if mode == 0 && rng.chance(0.3) { f32::NAN } else if rng.bool() { *v } else { *v + 1.0 + 4.0 * tol.abs().min(1.0) }).collect();
+            let t: Vec<f32> = p
+                .iter()
+                .map(|v| {
+                    if mode >= 4 {
+                        // distances 0, 1.2, 3 and tol/2 are within a tolerance above one, 2*tol + 1
+                        // (possibly infinite) is not; with an infinite tolerance every finite
+                        // distance is
+                        match rng.range(0, 4) {
+                            0 => *v,
+                            1 => *v + 1.2 * if tol > 1.3 { 1.0 } else { 0.0 },
+                            2 => *v - 3.0 * if tol > 4.0 { 1.0 } else { 0.0 },
+                            3 if tol.is_finite() => *v + 0.5 * tol,
+                            4 if tol.is_finite() => *v - (2.0 * tol + 1.0),
+                            _ => *v + 1e30,
+                        }
+                    } else if mode == 0 && rng.chance(0.3) {
+                        f32::NAN
+                    } else if rng.bool() {
+                        *v
+                    } else {
+                        *v + 1.0 + 4.0 * tol.abs().min(1.0)
+                    }
+                })
+                .collect();
             let hits = t.iter().zip(p.iter()).filter(|(t, v)| (**t - **v).abs() < tol).count();
             expect += hits as f64 / width as f64;
             t
@@ -236,7 +271,7 @@ fn nan_scoring_case(seed: u64, idx: u64) -> Out {
             if !((acc as f64 - expect).abs() <= (n as f64 + 4.0) * 2.0 * EPS32 + 1e-9) {
                 out.viol(
                     "aggregate:validate-accuracy:nan",
-                    format!("validate over {} samples with {}: accuracy {:e}, the rule (a component whose comparison involves NaN is not within the tolerance) gives {:e}", n, ["NaN target components", "NaN inputs", "a NaN tolerance", "a negative tolerance"][mode as usize], acc, expect),
+                    format!("validate over {} samples with {}: accuracy {:e}, the rule (a component is within the tolerance iff |target - prediction| < tolerance; a comparison involving NaN is not) gives {:e} [tolerance {:e}]", n, ["NaN target components", "NaN inputs", "a NaN tolerance", "a negative tolerance", "a tolerance above one", "an infinite tolerance"][mode as usize], acc, expect, tol),
                     J::obj().set("network", J::s(&cfg.describe())).set("mode", J::Int(mode as i64)),
                 );
             }
@@ -287,7 +322,7 @@ impl Monitor for C12 {
         vec![("aggregate", tier.pick(8400, 168_000)), ("ties", tier.pick(600, 12_000)), ("structures", tier.pick(30_000, 600_000)), ("nan_scoring", tier.pick(3_000, 60_000)), ("single_class", tier.pick(1_500, 30_000))]
     }
     fn rule(&self) -> &'static str {
-        "case i -> objective (i mod 7), data-set size from {1,2,3,40,63,64,65,127,128,129,200,257} (i/7 mod 12; the parallel chunk is 64), soft-max output or not, output width 1 or >1, tolerance from {f32::MIN_POSITIVE, 1e-9, log-uniform [1e-12,1e-6], log-uniform [1e-6,0.5]}, pool of 1..16 threads; random network ending in a dense layer (dense/conv/deconv/pool before it); in every fifth non-soft-max case a hidden dense layer is soft-max; in every fourth case the output layer itself is the range of a loop connection (1..3 iterations, any of the five loop accumulations, with and without input skips). One data set in five is a slow walk (consecutive inputs a few 1e-6 apart), one in ten repeats earlier inputs exactly. One squared-error case in six contains a sample whose loss overflows to +inf (target 3e20): the reported loss must then not be finite and the accuracy still averages over all samples. One non-soft-max case in five uses exactly one-hot targets (scored by the tolerance fraction all the same). Soft-max targets are one-hot, soft probabilities, log-probabilities (all entries negative) or arbitrary reals with a unique maximum. Targets are generated from the network's own predictions so that every component is clearly inside (an exact hit or |t-p| <= tol/2) or clearly outside (>= 2 tol + 0.01) the tolerance and arg-max ties do not occur. Oracle: harness-side aggregation over the library's own predict() and objective loss(): mean loss (f64, bound n*eps), accuracy by the stated rule; predict_batch(xs)[i] must be bit-equal to predict(xs[i]) in input order (also for 0 inputs), predict(x) bit-equal to the last activation of forward(x). Every second case repeats validate() and predict_batch() on the same network with a shorter prefix of the data. ties: soft-max outputs with exactly equal maxima (uniform distribution): the accuracy must equal the frequency of some single class among the targets, whatever the tie-breaking convention. structures: chains of 3..8 layers (dense / spatial / mixed) with 0..2 skip connections and 1..3 loop connections in any arrangement the library accepts (disjoint, nested, overlapping ranges, with and without input skips), all 5 x 5 accumulation pairs: predict bit-equal to the final activation of forward, predict_batch bit-equal to predict of each input (configurations on which both forward and predict panic are counted, not judged). nan_scoring: non-soft-max outputs with NaN target components, NaN inputs (NaN predictions) or a NaN tolerance: a component whose comparison involves NaN is not within the tolerance and scores as a miss; likewise no distance is below a negative tolerance; only the accuracy is judged. single_class: a soft-max output layer with one unit (constant prediction 1): arg-max agreement holds for every sample, accuracy 1 whatever the targets. Distinct = distinct (network, objective, size, tolerance) descriptors."
+        "case i -> objective (i mod 7), data-set size from {1,2,3,40,63,64,65,127,128,129,200,257} (i/7 mod 12; the parallel chunk is 64), soft-max output or not, output width 1 or >1, tolerance from {f32::MIN_POSITIVE, 1e-9, log-uniform [1e-12,1e-6], log-uniform [1e-6,0.5], log-uniform [1.5,1e4]}, pool of 1..16 threads; random network ending in a dense layer (dense/conv/deconv/pool before it); in every fifth non-soft-max case a hidden dense layer is soft-max; in every fourth case the output layer itself is the range of a loop connection (1..3 iterations, any of the five loop accumulations, with and without input skips). One data set in five is a slow walk (consecutive inputs a few 1e-6 apart), one in ten repeats earlier inputs exactly. One squared-error case in six contains a sample whose loss overflows to +inf (target 3e20): the reported loss must then not be finite and the accuracy still averages over all samples. One non-soft-max case in five uses exactly one-hot targets (scored by the tolerance fraction all the same). Soft-max targets are one-hot, soft probabilities, log-probabilities (all entries negative) or arbitrary reals with a unique maximum. Targets are generated from the network's own predictions so that every component is clearly inside (an exact hit or |t-p| <= tol/2) or clearly outside (>= 2 tol + 0.01) the tolerance and arg-max ties do not occur. Oracle: harness-side aggregation over the library's own predict() and objective loss(): mean loss (f64, bound n*eps), accuracy by the stated rule; predict_batch(xs)[i] must be bit-equal to predict(xs[i]) in input order (also for 0 inputs), predict(x) bit-equal to the last activation of forward(x). Every second case repeats validate() and predict_batch() on the same network with a shorter prefix of the data. ties: soft-max outputs with exactly equal maxima (uniform distribution): the accuracy must equal the frequency of some single class among the targets, whatever the tie-breaking convention. structures: chains of 3..8 layers (dense / spatial / mixed) with 0..2 skip connections and 1..3 loop connections in any arrangement the library accepts (disjoint, nested, overlapping ranges, with and without input skips), all 5 x 5 accumulation pairs: predict bit-equal to the final activation of forward, predict_batch bit-equal to predict of each input (configurations on which both forward and predict panic are counted, not judged). nan_scoring: non-soft-max outputs with NaN target components, NaN inputs (NaN predictions) or a NaN tolerance: a component whose comparison involves NaN is not within the tolerance and scores as a miss; likewise no distance is below a negative tolerance, distances 1.2, 3 and tol/2 are within a tolerance above one (1.5 ... f32::MAX) while 2 tol + 1 is not, and every finite distance is within an infinite tolerance; only the accuracy is judged. single_class: a soft-max output layer with one unit (constant prediction 1): arg-max agreement holds for every sample, accuracy 1 whatever the targets. Distinct = distinct (network, objective, size, tolerance) descriptors."
     }
     fn assumptions(&self) -> Vec<&'static str> {
         vec!["boundary semantics (|t-p| == tol, arg-max ties) are unspecified and not generated; NaN losses are not judged, a NaN comparison is read as not within the tolerance (nan_scoring)", "per-sample predict() and loss() are trusted here (they are the subject of C02/C06)"]
@@ -310,7 +345,9 @@ impl Monitor for C12 {
         let n = SIZES[((idx / 7) % 12) as usize];
         let softmax = (idx / 84) % 3 == 0;
         let wide = (idx / 84) % 2 == 0 || softmax;
-        let tol = match rng.range(0, 7) {
+        let tol = match rng.range(0, 8) {
+            // (above one: a tolerance is a distance, not a fraction)
+            8 => rng.log_in(1.5, 1e4) as f32,
             0 => f32::MIN_POSITIVE,
             1 => 1e-9,
             2 => rng.log_in(1e-12, 1e-6) as f32,
